@@ -39,7 +39,7 @@ def base_matrix(name, par=None):
 
 
 def fields(g):
-    if isinstance(g, dict):
+    if isinstance(g, dict) and "n" in g:      # (Tangelo's Gate subclasses dict but keeps its data in attributes)
         return g["n"], list(g["t"]), (list(g["c"]) if g.get("c") else []), g.get("p")
     ctrl = g.control
     return g.name, list(g.target), (list(ctrl) if ctrl else []), g.parameter
